@@ -1949,6 +1949,9 @@ fn main() {
             for n in [0usize, 1, 2, 6, 7, 9] {
                 let bm: BTreeMap<String, i64> = (0..n).map(|i| (format!("k{i}"), i as i64 - 3)).collect();
                 one(acc, &show, "BTreeMap<String, i64>", bm.clone(), true);
+                // (with the subject's `fast_hash` feature `From<HashMap<..>>` exists for its own
+                // ahash-based map type only, not for std's: the build of the variant pass leaves it out)
+                #[cfg(not(feature = "fast"))]
                 one(acc, &show, "HashMap<String, i64>", bm.into_iter().collect::<HashMap<_, _>>(), true);
                 let um: BTreeMap<u128, String> = (0..n).map(|i| (u128::MAX - i as u128 * 7, format!("v{i}"))).collect();
                 one(acc, &show, "BTreeMap<u128, String>", um, true);
